@@ -15,7 +15,7 @@ sys.path.insert(0, os.path.dirname(os.path.dirname(os.path.abspath(__file__))))
 from harness import oracle as O  # noqa: E402
 
 from quri_parts.algo.mitigation.zne import create_polynomial_extrapolate  # noqa: E402
-from quri_parts.algo.utils.fitting import polynomial_fitting  # noqa: E402
+from quri_parts.algo.utils.fitting import exp_fitting, exp_fitting_with_const, polynomial_fitting  # noqa: E402
 
 
 def peval(p, x):
@@ -90,6 +90,40 @@ def main():
                 res.fail("corr:polyfit:constant", f"constant data {e} extrapolated to {got} (parameters {p})", info)
             if any(abs(v) > 1e-6 * scale for v in p[1:]):
                 res.fail("corr:polyfit:constant", f"constant data {e} fitted by a non-constant polynomial {p}", info)
+    # exponential ansatz a + b exp(p(x)) on constant data with distinct scale factors: the hypothesis of
+    # noiseless_exponential_extrapolation_returns_the_exact_value is that the fit reproduces the data exactly - checked here on the
+    # real fits together with the conclusion (value at 0 = the constant); a refusal (ValueError / TypeError of curve_fit for more
+    # parameters than points) is not a wrong answer
+    import math
+    import warnings
+    warnings.filterwarnings("ignore")
+    for c in range(max(40, n_cases // 5)):
+        n = rng.randint(2, 7)
+        xs = sorted(rng.sample([1.0, 1.5, 2.0, 2.5, 3.0, 4.0, 5.0, 6.0, 7.0], n))
+        if rng.random() < 0.5:
+            rng.shuffle(xs)
+        order = rng.randint(0, 2)
+        e = rng.choice([0.5, 1.0, -0.73, rng.uniform(-1, 1), 0.0])
+        ys = [e] * n
+        with_const = c % 2 == 1
+        const = rng.choice([0.0, 0.1, -0.25])
+        info = {"xs": xs, "ys": ys, "order": order, "ansatz": "const + b exp(p)" if with_const else "a + b exp(p)", "constant": const}
+        try:
+            r = exp_fitting_with_const(xs, ys, order, const, 0) if with_const else exp_fitting(xs, ys, order, 0)
+        except (ValueError, TypeError, RuntimeError):
+            res.count(str(info), nontrivial=False, bucket="exp:refused")
+            continue
+        res.count(str(info), bucket="exp:fitted")
+        prm = [float(v) for v in r.parameters]
+        a0, b0, pc = (const, prm[0], prm[1:]) if with_const else (prm[0], prm[1], prm[2:])
+        try:
+            worst = max(abs(a0 + b0 * math.exp(peval(pc, x)) - e) for x in xs)
+        except OverflowError:
+            worst = float("inf")
+        if worst > 1e-6:
+            res.fail("corr:expfit:not_exact", f"the fit {prm} misses the constant data by {worst:.3e}", info)
+        elif abs(float(r.value) - e) > 1e-6:
+            res.fail("corr:expfit:constant", f"constant data {e} extrapolated to {r.value} by an exact fit {prm}", info)
     res.sample({"xs": [1.0, 2.0, 3.0], "ys": [0.5, 0.5, 0.5], "order": 2})
     res.emit()
 
